@@ -484,9 +484,23 @@ class Gen:
         elif r < 0.2:
             kind_attr = 'kind'
             if kind_attr not in names and not c.get('extra'):
-                c['recognize'] = ['attr_value', kind_attr, c['name']]
-                c['savorize'] = [['remove_attr', kind_attr]]
-                c['sweeten'] = [['set_attr', kind_attr, c['name']]]
+                # a discriminating attribute: the class name, or (a format
+                # "version") an int, a bool or a float
+                val = c['name']
+                if rng.random() < 0.3:
+                    kind_attr = 'version'
+                    val = rng.choice([1, 2, 0, True, M.enc(1.5)])
+                if kind_attr not in names:
+                    c['recognize'] = ['attr_value', kind_attr, val]
+                    if kind_attr == 'version':
+                        # several classes may share a version number: the
+                        # class's own required attribute keeps them apart
+                        c['recognize'] = ['all', c['recognize'],
+                                          ['attr', c['params'][0]['name']
+                                           if not c.get('bases') else
+                                           '%s_id' % c['name'].lower(), None]]
+                    c['savorize'] = [['remove_attr', kind_attr]]
+                    c['sweeten'] = [['set_attr', kind_attr, val]]
         elif r < 0.3:
             if any('default' in p and p['type'] in (
                     'int', 'str', 'float', 'bool') for p in c['params']):
@@ -537,7 +551,9 @@ class Gen:
             # helpers (null, bool, number or text) and removed on loading
             c['savorize'] = [['remove_attr', 'zmark']]
             c['sweeten'] = [['set_attr', 'zmark', rng.choice(
-                [None, None, True, 3, M.enc(2.5), 'txt'])]]
+                [None, None, True, 3, M.enc(2.5), 'txt',
+                 M.enc(float('inf')), M.enc(float('-inf')),
+                 M.enc(float('nan')), M.enc(1e22), 10 ** 30, ''])]]
 
     def build(self):
         rng = self.rng
@@ -642,7 +658,7 @@ def relax(spec, rng, intensity=None):
             sab = rng.choice(['sab_wrong_kind', 'sab_drop', 'sab_add_unknown',
                               'sab_nonstring_key', 'sab_scalar', 'sab_tag',
                               'sab_sequence', 'sab_subtag',
-                              'raise_seasoning'])
+                              'raise_seasoning', 'raise_seasoning_bare'])
             if sab == 'sab_wrong_kind' and names:
                 op = [sab, rng.choice(names), rng.choice(SAB_NODES)]
             elif sab == 'sab_drop' and names:
